@@ -4,6 +4,14 @@ import common
 
 def main():
     try:
+        # scratch directories of an older layout (before they became private to a (check, tier) run)
+        import os, re, shutil
+        w = os.path.join(common.CACHE, "work")
+        for k in (os.listdir(w) if os.path.isdir(w) else []):
+            for d in os.listdir(os.path.join(w, k)):
+                if not re.match(r"(C\d\d-(quick|thorough)|adhoc|setup)$", d):
+                    shutil.rmtree(os.path.join(w, k, d), ignore_errors=True)
+        os.environ.setdefault("VF_RUN", "setup")
         common.build_tool()
         import rt
         for k in ("debug", "release", "asan"):
